@@ -1,2 +1,3 @@
 -- Property files of work group I2 (import UF.Props.Cxx lines go here).
-import UF.Driver.Ops.GroupI2
+import UF.Props.C04Full
+import UF.Props.C05Full
